@@ -176,7 +176,8 @@ func (p *Proxy) handleRangeRequest(r responder.Responder, req *http.Request, cac
 		} else {
 			// IfRange is Time
 			timeIfRange := ifRange.ForceUnwrapRight()
-			if timeIfRange.Before(cached.Metadata.Object.LastModified) {
+			// Without a stored Last-Modified there is nothing the date could match
+			if cached.Metadata.Object.LastModified.IsZero() || timeIfRange.Before(cached.Metadata.Object.LastModified) {
 				slog.Info("If-Range does not match cached Last-Modified. Sending full 200 response.", "url", req.URL, "key", key)
 				return ErrIfRangeMismatch
 			}
@@ -191,11 +192,20 @@ func (p *Proxy) handleRangeRequest(r responder.Responder, req *http.Request, cac
 	r.SetHeader("Accept-Ranges", "bytes")
 	r.SetHeader("Content-Range", fmt.Sprintf("bytes %d-%d/%d", start, end, cached.Metadata.Size))
 	r.SetHeader("Content-Length", fmt.Sprintf("%d", length))
-	r.SetHeader("ETag", cached.Metadata.Object.ETag)
-	r.SetHeader("Last-Modified", cached.Metadata.Object.LastModified.Format(http.TimeFormat))
+	setStoredValidators(r, cached)
 
 	sections := io.NewSectionReader(cached.Data, start, length)
 	return finalizeAndRespond(r, sections, http.StatusPartialContent, req)
+}
+
+// Hands the client the validators stored with the entry, and only those the origin actually sent.
+func setStoredValidators(r responder.Responder, cached *cache.Entry[cachedRequestInfo]) {
+	if cached.Metadata.Object.ETag != "" {
+		r.SetHeader("ETag", cached.Metadata.Object.ETag)
+	}
+	if !cached.Metadata.Object.LastModified.IsZero() {
+		r.SetHeader("Last-Modified", cached.Metadata.Object.LastModified.Format(http.TimeFormat))
+	}
 }
 
 func (p *Proxy) processRequest(r responder.Responder, req *http.Request, key cache.CacheKey, clientHd *headers.HeaderDirectives) error {
@@ -263,8 +273,7 @@ func (p *Proxy) processRequest(r responder.Responder, req *http.Request, key cac
 
 		r.SetHeaders(fetched.Cached.Entry.Metadata.Object.Header)
 		r.SetHeader("Accept-Ranges", "bytes")
-		r.SetHeader("ETag", fetched.Cached.Entry.Metadata.Object.ETag)
-		r.SetHeader("Last-Modified", fetched.Cached.Entry.Metadata.Object.LastModified.Format(http.TimeFormat))
+		setStoredValidators(r, fetched.Cached.Entry)
 		addCacheHeaders(r, req, typeutils.Some(fetched.Cached.Entry), fetchResultToCacheStatus(fetched))
 
 		slog.Debug("Serving cached response", "url", req.URL, "key", key)
